@@ -1,6 +1,7 @@
 import Gql.Proofs.ValidationOrder
 import Gql.Proofs.ValidationMemo
 import Gql.Generated.ValidationTables
+import Gql.Proofs.RuleReturnsFacts
 /-!
 # C12 — Validation is a deterministic, compositional function of document and schema
 
@@ -400,5 +401,21 @@ theorem memo_pure_full_false : ¬ memo_pure_full := by
 open Gql.Validation.Context in
 example : (runReqs exP Ctx.empty [.usages (.op 0), .recUsages 0, .usages (.op 0), .usages (.frag 0)]).1 =
     [.us [100], .us [100, 200], .us [100, 200], .us [200]] := by decide
+
+/-- **The concrete rules are non-editing visitors (T1, regenerated from the source on every run).**  The
+framework theorems above (`rules_union`, `parallel_alone`, `rules_order`, `limit_prefix`) quantify over
+*non-editing* rules.  For the ~40 concrete rule classes this is decided here on a table extracted from
+`src/graphql/validation/rules/**.py` with Python's `ast` module: every `return` of every `enter*` / `leave*`
+method (following `return self.helper(…)` into the helper) yields `None`, `SKIP`/`False` or `BREAK`/`True` —
+never a node or `REMOVE`; and every rule listed in `specified_rules` / `specified_sdl_rules` is in the table.
+A rule that starts returning a replacement node breaks this `decide`. -/
+theorem rules_never_edit :
+    Gql.Validation.Static.neverEdit Gql.Generated.ruleReturns = true ∧
+    Gql.Validation.Static.covers Gql.Generated.ruleReturns
+      (Gql.Generated.specifiedRules ++ Gql.Generated.specifiedSdlRules) = true :=
+  ⟨Gql.Validation.Static.ruleReturns_neverEdit, Gql.Validation.Static.ruleReturns_covers⟩
+
+-- the predicate is not vacuous: a method returning a node is rejected
+example : Gql.Validation.Static.neverEdit [("R", "enter_field", ["none", "other:node"])] = false := by decide
 
 end Gql.Props.C12
